@@ -1,6 +1,7 @@
 // Native witness search for unit `blockencoder` (appended to src/sender/blockencoder.rs in a scratch copy).
 // Drives the REAL BlockEncoder (new + read until None) over real FileDesc / ObjectDesc values and checks the packet
-// sequence against the clauses that fail in the Verus unit:
+// sequence against the clauses that failed in the Verus unit (the first three are repaired in /repo -- commits 3ab7817,
+// 9b99fd2, a99ff93 -- and are kept as regression checks; first_block_failed is an OPEN known finding and is still reported):
 //   stream_short_reads   C20.blockencoder.read_block_stream.*            (one read() per block, short reads)
 //   early_close_flag     C02.blockencoder.read.close_flag_only_on_the_last_packet_of_the_transfer
 //   interleave_zero      C13.blockencoder.read.none_only_when_the_source_is_used_up / ...lone_packet...interleave_blocks_zero
